@@ -201,6 +201,19 @@ def run_sm(mod, proto, role, seq, k):
                         if n >= int(arg):
                             break
                     out.append("ok:%d" % n)
+                elif op == "q":
+                    # like "p", but the half-consumed iterator is then closed and dropped before the next call
+                    n = 0
+                    for _ in v:
+                        n += 1
+                        if n >= int(arg):
+                            break
+                    if hasattr(v, "close"):
+                        v.close()
+                    v = None
+                    import gc
+                    gc.collect()
+                    out.append("ok:%d" % n)
                 elif op == "n":
                     out.append("ok")
         except BaseException as e:
